@@ -609,7 +609,9 @@ impl DocGen<'_> {
             if k < 6 && !fields.is_empty() {
                 let (f, t) = self.r.pick(&fields).clone();
                 let b = base(&t).to_string();
-                let alias = if self.r.chance(1, 10) { format!("k{}: ", self.r.below(2)) } else { String::new() };
+                // the alias is derived from the field name: one response key never stands for two different
+                // fields (such documents are invalid, yet the validator accepts some of them: C09's subject)
+                let alias = if self.r.chance(1, 10) { format!("k{}{f}: ", self.r.below(2)) } else { String::new() };
                 let d = self.dirs();
                 if self.ts.is_composite(&b) {
                     if depth == 0 {
